@@ -352,3 +352,24 @@ class WeightedSpace:
     def range(self, lo, hi):
         for k in range(lo, hi):
             yield self.at(k)
+
+
+def layout(W, order):
+    """memory layout of a case matrix: 'C' (default), 'F' (Fortran order, e.g. what np.load of a MATLAB export gives),
+    'T' (transposed view of a C-ordered array), 'S' (non-contiguous slice of a larger array)"""
+    W = np.asarray(W)
+    if order in (None, "C"):
+        return np.ascontiguousarray(W)
+    if order == "F":
+        return np.asfortranarray(W)
+    if order == "T":
+        return np.ascontiguousarray(W.T).T
+    if order == "S":
+        big = np.zeros(tuple(2 * k for k in W.shape), dtype=W.dtype)
+        sl = tuple(slice(None, None, 2) for _ in W.shape)
+        big[sl] = W
+        return big[sl]
+    raise ValueError(order)
+
+
+ORDERS = ["C", "C", "F", "T", "S"]
